@@ -37,6 +37,12 @@ def codecStep (_ : Unit) (line : String) : Unit × String :=
       | some m, some f, some p => (match frameEncodeV2 m f p with
           | .ok f => ((), "ok " ++ hex f) | .error e => ((), "err " ++ showFrameErr e))
       | _, _, _ => bad
+  | ["frame_enc2c", mx, en, ms, mf, sh, ch] =>
+      match mx.toNat?, en.toNat?, ms.toNat?, mf.toNat?, unhex sh, unhex ch with
+      | some m, some e, some mn, some f, some sr, some cp =>
+        (match frameEncodeV2c m (e != 0) mn f sr cp with
+          | .ok fr => ((), "ok " ++ hex fr) | .error er => ((), "err " ++ showFrameErr er))
+      | _, _, _, _, _, _ => bad
   | ["frame_read", mx, h] => match mx.toNat?, unhex h with
       | some m, some b =>
           let (ps, e) := frameReadAll m (b.length + 1) b
